@@ -71,12 +71,16 @@ Proof. intros name ops H. apply (run_inv_nofill _ ops C07_tables_ok H), empty_in
 Print Assumptions C07_reachable_from_empty_partial.
 
 (* ---------------------------------------------------------------- rejected calls *)
-(* full strength: a rejected call changes no wire and raises ValueError (set_output on a missing node: KeyError,
-   which the property text does not count as illegal type, name or connection).  Needs `Inv C` (closedness) for the
-   calls that undo their partial effects by removing nodes.  NOT proved for add_subcircuit. *)
+(* full strength, every operation: a rejected call changes no wire and not the registry, and raises ValueError
+   (set_output on a missing node: KeyError, which the property text does not count as illegal type, name or
+   connection).  `Inv C` is used for closedness only (the calls that undo partial effects remove the nodes they made). *)
 Definition reject_exn (o : op) : exn := match o with OSetOutput _ _ => KeyError | _ => ValueError end.
-Definition C07_reject_full : Prop := ∀ C o e, args_ok o → Inv C → (step C o).2 = Fail e →
-  edges (c_g (step C o).1) = edges (c_g C) ∧ e = reject_exn o.
+Theorem C07_reject : ∀ C o e, args_ok o → Inv C → (step C o).2 = Fail e →
+  edges (c_g (step C o).1) = edges (c_g C) ∧ c_bbs (step C o).1 = c_bbs C ∧ e = reject_exn o.
+Proof.
+  intros C o e Ha [Hc _]. apply step_reject_all; [by apply closed'_iff|]. destruct o; try exact I. exact Ha.
+Qed.
+Print Assumptions C07_reject.
 (* proved without any hypothesis on C: add, connect, disconnect, remove, set_output (the registry is untouched as well) *)
 Theorem C07_reject_partial : ∀ C o e, basic_op o = true → (step C o).2 = Fail e →
   edges (c_g (step C o).1) = edges (c_g C) ∧ c_bbs (step C o).1 = c_bbs C ∧ e = reject_exn o.
